@@ -69,6 +69,11 @@ def argv_opts(o, rev, ext):
 
 def run_case(case):
     rng = random.Random(case['seed'])
+    if case['seed'] % 2:
+        seams.install_registry()        # every second directory is shown with a message registry installed
+    else:
+        import pel.peltool.src as _src
+        _src.registry.pels = []
     n = rng.choice([0, 1, 2, 5, 8, 12, 25] + ([40, 60] if case['big'] else []))
     eids = rng.sample(range(0x50000001, 0x50000FFF), n)
     if n and rng.random() < .3:
